@@ -191,6 +191,12 @@ def mutate(data: bytes, spec: list, other: bytes = b"") -> bytes:
         import gzip
         import lzma
         return {"gz": lambda d: gzip.compress(d, mtime=0), "bz2": bz2.compress, "xz": lzma.compress}[spec[1]](data)
+    if op == "plant":                                  # a hostile TOKEN of the format's own grammar, in context
+        return plant_token(data, spec[1], spec[2], spec[3])
+    if op == "zipsub":                                 # regex substitution inside the parts of a ZIP container
+        return zip_sub(data, spec[1], spec[2], spec[3], spec[4] if len(spec) > 4 else 1)
+    if op == "zipenc":                                 # valid ZIP whose members carry the "encrypted" flag bit
+        return zip_flag_encrypted(build_archive("zip", [(n, data) for n in spec[1]]))
     if op == "himg":                                   # the hostile image itself (for the sniffers)
         return HOSTILE_IMAGES[spec[1]]
     if op == "zipimg":                                 # every raster media part of a ZIP container replaced
@@ -330,6 +336,10 @@ def zip_shell(data: bytes, which: str, how: str, rs: int) -> bytes:
                     z.writestr(n, content)
                     z.writestr("x" * 300 + "/" + "y" * 300 + ".xml", b"<a/>")
                     continue
+                if how == "nlname":
+                    z.writestr(n, content)
+                    z.writestr(n.rsplit("/", 1)[0] + "/li\nne\rbreak\x1b[0m.xml" if "/" in n else "li\nne.xml", b"<a/>")
+                    continue
                 if how == "abs":
                     z.writestr("/" + n, content)
                     continue
@@ -387,7 +397,7 @@ def zip_header_attack(data: bytes, how: str, rs: int) -> bytes:
 
 ZIP_HDR_HOWS = ["method", "flags", "usize", "csize", "offset", "crc", "namelen", "count", "cdoff", "cdsize",
                 "comment", "zip64"]
-ZIP_SHELL_HOWS = list(HOSTILE_XML) + ["drop", "dir", "dupname", "longname", "abs", "dotdot"]
+ZIP_SHELL_HOWS = list(HOSTILE_XML) + ["drop", "dir", "dupname", "longname", "nlname", "abs", "dotdot"]
 ZIP_SHELL_WHICH = ["content_types", "rels", "main", "all_xml", "first", "random"]
 
 
@@ -750,3 +760,107 @@ def ole_plant_pictures(data: bytes, which: str, kind: str, at_permille: int) -> 
     at = 2048 + (len(st) - 2048 - len(blk) - 32) * (at_permille % 1000) // 1000
     st2 = st[:at] + blk + st[at + len(blk):]
     return _ole_write(data, m, st2)
+
+
+# ------------------------------------------------------------------ grammar-aware tokens for the hand-written tokenisers
+BIG = [str(2 ** 60), str(2 ** 63), str(10 ** 30), "-1", "0", "x", "1e9", "", "-" + str(2 ** 60)]
+TOKENS = {
+    # RTF: control symbols / words with malformed parameters, unbalanced groups, truncated escapes
+    "rtf": [b"\\'zz", b"\\'g1", b"\\'4", b"\\'", b"\\'4}", b"{\\'}", b"\\u", b"\\u-", b"\\u?", b"\\u99999999999999999999?",
+            b"\\u-99999 ", b"\\u65536?", b"\\u55296?", b"\\uc0\\u8364", b"\\uc99999 ", b"\\uc-1 ", b"\\bin99999999999 abc",
+            b"\\bin-5 abc", b"\\bin", b"\\bin0 ", b"{", b"}", b"}}}}", b"{{{{", b"\\", b"\\*", b"{\\*\\zzdest abc", b"{\\*}", b"{\\*\\",
+            b"\\ansicpg999999 ", b"\\ansicpg-1 ", b"\\page", b"\\page\\page\\page", b"\\par", b"{\\pict\\jpegblip zz}", b"{\\pict }",
+            b"{\\pict\\pngblip 8950", b"\\zz99999999999999999999999999 ", b"\\" + b"a" * 300 + b" ", b"\\~\\-\\_\\:\\|", b"\\{\\}\\\\",
+            b"{\\fonttbl", b"{\\fonttbl}", b"{\\field{\\*\\fldinst HYPERLINK}{\\fldrslt", b"\\'e9\\'", b"\\\r", b"\\\n", b"\x00", b"\\\x00"],
+    # HTML / XHTML: character references, unterminated constructs
+    "html": [b"&#x;", b"&#;", b"&#99999999999;", b"&#xFFFFFFFF;", b"&#x110000;", b"&#xD800;", b"&#0;", b"&", b"&#", b"&#x", b"&amp",
+             b"&bogus;", b"&" + b"a" * 200 + b";", b"<", b"<!--", b"<!-- -- -->", b"<![CDATA[", b"<?", b"<?php", b"</", b"</>", b"<a href=",
+             b"<a href='x", b"<p " + b"a=1 " * 300 + b">", b"<script>", b"<style>", b"<noscript><img>", b"<table><tr><td><table>",
+             b"</table></table></td>", b"<meta charset='no-such'>", b"<meta charset=>", b"<title>", b"<base href>", b"<!DOCTYPE",
+             b"<svg><math><p>", b"<br/ >", b"<img src>", b"\x00", b"<\x00p>"],
+    # RFC 5322 / MIME headers and mbox separators
+    "mail": [b"Subject: =?utf-8?b?////?=\n", b"Subject: =?x?q?=?=\n", b"Subject: =?utf-8?q?=ZZ?=\n", b"Subject: =?utf-8?b?abc\n",
+             b"Subject: =?utf-8?b??=\n", b"Subject: =??b?QQ==?=\n", b"From: <<<>>>\n", b"From: \"a\" <b@c> , ,,, <>\n", b"To: " + b"a@b, " * 300 + b"\n",
+             b"Date: not a date\n", b"Date: 99 Foo 99999 99:99:99 +9999\n", b"Date: \n", b"Content-Type: text/plain; charset=\"no-such\"\n",
+             b"Content-Type: multipart/mixed\n", b"Content-Type: multipart/mixed; boundary=\n", b"Content-Type: ;;;=\n",
+             b"Content-Transfer-Encoding: base64\n", b"Content-Transfer-Encoding: zz\n", b"Content-Disposition: attachment; filename*=utf-8''%ZZ\n",
+             b"Content-Disposition: attachment; filename=\"a\nb.txt\"\n", b"Message-ID: \n", b"X: " + b"y" * 5000 + b"\n", b" folded\n", b":\n",
+             b"\nFrom \n", b"\nFrom x\n", b"\n>From y\n", b"\nFrom " + b"word " * 30 + b"no year here at all\n",
+             b"\nFrom a@b Sat Dec 27 10:00:00 2025\n", b"\nFrom a@b  Sat Dec 27 10:00:00 20255\n", b"\r\nFrom a@b 2025\r\n"],
+}
+PLANT_FAMILY = {"rtf": "rtf", "html": "html", "mhtml": "html", "epub": "html", "eml": "mail", "mbox": "mail", "plain": "html"}
+
+
+def plant_token(data: bytes, family: str, idx: int, pos: int) -> bytes:
+    """insert TOKENS[family][idx] at the pos-th anchor of the input (after a space / brace / '>' / newline, i.e. where
+    the tokeniser is in its normal state); pos = -1: append at the very end (the token is the last thing it sees),
+    pos = -2: replace the tail after the last anchor."""
+    toks = TOKENS[family]
+    tok = toks[idx % len(toks)]
+    if pos == -1:
+        return data + tok
+    anchors = [i + 1 for i, c in enumerate(data) if c in b" {}>\n;"]
+    if not anchors:
+        return data + tok
+    if pos == -2:
+        return data[: anchors[-1]] + tok
+    at = anchors[pos % len(anchors)]
+    return data[:at] + tok + data[at:]
+
+
+def zip_sub(data: bytes, part_suffix: str, pat: str, repl: str, count: int = 1) -> bytes:
+    """re.sub(pat, repl, part, count) on every part whose name ends with part_suffix; ZIP shell rebuilt."""
+    import re
+    try:
+        zin = zipfile.ZipFile(io.BytesIO(data))
+        items = [(i, zin.read(i)) for i in zin.infolist()]
+    except Exception:
+        return data
+    out = io.BytesIO()
+    with zipfile.ZipFile(out, "w", zipfile.ZIP_DEFLATED) as z:
+        for info, content in items:
+            if info.filename.endswith(part_suffix):
+                content = re.sub(pat.encode("latin-1"), repl.encode("latin-1"), content, count=count)
+            if info.filename == "mimetype":
+                z.writestr(zipfile.ZipInfo("mimetype"), content)
+            else:
+                z.writestr(info.filename, content)
+    return out.getvalue()
+
+
+# (kind, part suffix, regex, replacement template with {N}): numeric fields that size an allocation or a loop.
+# Only values that fail AT ONCE (2**60 elements cannot be allocated, "x" does not parse) -- no mid-size amplifiers.
+COUNT_FIELDS = [
+    ("ods", "content.xml", r"<table:table-cell\b", '<table:table-cell table:number-columns-repeated="{N}"'),
+    ("ods", "content.xml", r"<table:table-row\b", '<table:table-row table:number-rows-repeated="{N}"'),
+    ("ods", "content.xml", r"<table:table-cell\b", '<table:table-cell table:number-columns-spanned="{N}" table:number-rows-spanned="{N}"'),
+    ("odt", "content.xml", r"(<text:p\b[^>]*>)", '\\1<text:s text:c="{N}"/>'),
+    ("odt", "content.xml", r"(<text:p\b[^>]*>)", '\\1<text:tab/><text:s text:c="{N}"/><text:line-break/>'),
+    ("odt", "content.xml", r"<table:table-cell\b", '<table:table-cell table:number-columns-repeated="{N}"'),
+    ("odt", "content.xml", r"<table:table-row\b", '<table:table-row table:number-rows-repeated="{N}"'),
+    ("odp", "content.xml", r"(<text:p\b[^>]*>)", '\\1<text:s text:c="{N}"/>'),
+    ("odp", "content.xml", r"<table:table-cell\b", '<table:table-cell table:number-columns-repeated="{N}"'),
+    ("odg", "content.xml", r"(<text:p\b[^>]*>)", '\\1<text:s text:c="{N}"/>'),
+    ("docx", "word/document.xml", r"(<w:tcPr>|<w:tc>)", '\\1<w:tcPr><w:gridSpan w:val="{N}"/><w:vMerge w:val="{N}"/></w:tcPr>'),
+    ("docx", "word/document.xml", r"(<w:pPr>|<w:p>)", '\\1<w:pPr><w:numPr><w:ilvl w:val="{N}"/><w:numId w:val="{N}"/></w:numPr><w:outlineLvl w:val="{N}"/></w:pPr>'),
+    ("pptx", "slide1.xml", r"<a:tc\b", '<a:tc gridSpan="{N}" rowSpan="{N}"'),
+    ("xlsx", "workbook.xml", r"<sheet ", '<sheet sheetId="{N}" '),
+    ("xlsx", "sharedStrings.xml", r"<sst ", '<sst count="{N}" uniqueCount="{N}" '),
+    ("epub", "content.opf", r"<itemref ", '<itemref linear="{N}" '),
+]
+
+
+def zip_flag_encrypted(data: bytes) -> bytes:
+    """set general-purpose flag bit 0 ("encrypted") in every local and central header of a ZIP."""
+    b = bytearray(data)
+    for sig, off in ((b"PK\x03\x04", 6), (b"PK\x01\x02", 8)):
+        i = b.find(sig)
+        while i >= 0:
+            b[i + off] |= 0x01
+            i = b.find(sig, i + 4)
+    return bytes(b)
+
+
+# names that would break a one-line diagnostic or a terminal if they were echoed
+HOSTILE_ECHO_NAMES = ["minutes\n2024 Q3.txt", "a\rb.txt", "x\x1b[31mred.txt", "tab\there.txt", "nl\n\n\nmany.docx",
+                      "u\u2028sep.txt", "q" * 250 + ".txt", "dir\n/inner.txt", "report.docx\n"]
